@@ -1,9 +1,8 @@
-(* C17 — stream output: order and dependence.  (Well-formedness of each envelope against the
-   Messages vocabulary is checked on the implementation's JSON by the harness; in the model it
-   holds by the typing of `envelope`, `document`, `pickle`, `ptype`, `ktype`.) *)
+(* C17 — stream output: order, dependence, and the shape of every envelope (Schema.v is the reading of
+   Cucumber Messages; the same reading, in Python, is applied to the implementation's envelopes). *)
 From Coq Require Import String List Bool Arith.
 Import ListNotations.
-Require Import Kinds PyStr Line Matcher Ast Builder Compiler Pipeline Stream StreamFacts Json.
+Require Import Kinds PyStr Line Matcher Ast Builder Compiler Pipeline Stream StreamFacts Json Schema SchemaFacts.
 
 Theorem C17_order : forall o idc uri data es i,
   enum_source o idc uri data = Some (es, i) ->
@@ -35,3 +34,13 @@ Theorem C17_vocabulary : forall (t : ptype) (k : ktype),
   /\ In (TokenFormatter.ktype_str k) (map s2l ["Unknown"; "Context"; "Action"; "Outcome"; "Conjunction"]%string).
 Proof. intros t k. split; [destruct t | destruct k]; simpl; auto 6. Qed.
 Print Assumptions C17_vocabulary.
+
+(* every envelope the stream yields, rendered as the JSON the implementation's dictionaries have, has the
+   shape Cucumber Messages prescribes: exactly one of source / gherkinDocument / pickle / parseError;
+   required keys present and no others; strings, integers and lists where required; keywordType and
+   pickle step type from the fixed vocabularies; optional keys (column, mediaType, tableHeader, dataTable,
+   docString, argument, feature) absent or well-typed, never null *)
+Theorem C17_schema : forall o idc uri data es i e,
+  enum_source o idc uri data = Some (es, i) -> In e es -> s_envelope (j_envelope e) = true.
+Proof. exact stream_envelopes_ok. Qed.
+Print Assumptions C17_schema.
